@@ -463,6 +463,10 @@ class _SktimeForecaster(BaseForecaster):
             raise NotImplementedError()
 
         fh = cv.get_fh()
+        if isinstance(self, _RequiredForecastingHorizonMixin):
+            # a forecaster whose fit depends on the horizon can only roll the
+            # horizon it was fitted with: same check as in predict
+            self._set_fh(fh)
         y_preds = []
         cutoffs = []
 
